@@ -46,10 +46,17 @@ LINE = {
     'DATA_cookie_noid': b'DATA ' + binascii.hexlify(COOKIE_CTX + b' 999999 ' + SERVER_CHALLENGE),
     'DATA_cookie_noctx': b'DATA ' + binascii.hexlify(b'no_such_context ' + COOKIE_ID + b' ' + SERVER_CHALLENGE),
     'AGREE_UNIX_FD': b'AGREE_UNIX_FD',
+    # command words only a CLIENT sends, said by the server (an echoing, buggy or hostile peer): outside the protocol
+    'srv_BEGIN': b'BEGIN',
+    'srv_BEGIN_arg': b'BEGIN ' + GUID,
+    'srv_AUTH': b'AUTH EXTERNAL 31303030',
+    'srv_CANCEL': b'CANCEL',
+    'srv_NEGOTIATE': b'NEGOTIATE_UNIX_FD',
     'junk': b'HELLO there',
     'junk_lower': b'ok ' + GUID,
     'empty': b'',
 }
+CLIENT_WORDS = ['srv_BEGIN', 'srv_BEGIN_arg', 'srv_AUTH', 'srv_CANCEL', 'srv_NEGOTIATE']
 IN_PROTOCOL = {'REJECTED', 'REJECTED_mechs', 'ERROR', 'ERROR_text', 'OK_guid', 'DATA', 'DATA_cookie', 'DATA_junkhex',
                'DATA_cookie_noid', 'DATA_cookie_noctx',
                'AGREE_UNIX_FD'}
@@ -457,6 +464,15 @@ def run(ctx):
                 break
         ctx.exhaustive = not ctx.truncated
         ctx.note('exhaustive_bound', {'alphabet': SYMS, 'max_len': L, 'transports': 2, 'sequences': n})
+        # client-side command words said by the server, alone and after / before every other line
+        if si == 0:
+            for ln in (1, 2, 3):
+                for seq in itertools.product(SYMS + CLIENT_WORDS, repeat=ln):
+                    if not any(x in CLIENT_WORDS for x in seq) or (ln == 3 and seq[1] not in CLIENT_WORDS):
+                        continue
+                    for unix in (False, True):
+                        run_lines(ctx, seq, unix, {'kind': 'seq', 'symbols': list(seq), 'unix': unix})
+                        ctx.count('client_word_sequences')
         # (b)
         if si == 0:
             for k in range(0, 4):
